@@ -1,8 +1,8 @@
 From Coq Require Import List NArith Bool.
 From V.C10 Require Import Model.
 From V.Mgr Require Import DialShape DialShapeProofs Model Caps Ledger LedgerInv.
-From V.Tcp Require Model Proofs Theorems.
-From V.C05 Require TcpCompose.
+From V.Tcp Require Model Proofs Theorems Variants VariantTheorems Once Settle.
+From V.C05 Require TcpCompose TrCompose.
 Import ListNotations.
 Open Scope N_scope.
 From V.C05 Require Import Properties.
@@ -331,3 +331,264 @@ Check (C05_sys_no_stuck :
   forall e m g es2, TcpCompose.sys_evs L (TcpCompose.sys_run L TcpCompose.sys0 xs) x = e :: es2 ->
   (m, g) = (TcpCompose.s_m (TcpCompose.sys_run L TcpCompose.sys0 xs), TcpCompose.s_g (TcpCompose.sys_run L TcpCompose.sys0 xs)) ->
   ~ In (Stuck s) (snd (step L m e))).
+Check (C05_tr_refines_model :
+  forall t s g,
+  Tcp.VariantTheorems.treach t s g -> Tcp.Theorems.reach s g).
+Check (C05_tr_refines_model_any_owner :
+  forall t s g,
+  Tcp.VariantTheorems.treachU t s g -> Tcp.Theorems.reachU s g).
+Check (C05_tr_dial_result :
+  forall t s g c a,
+  Tcp.VariantTheorems.treachU t s g ->
+  snd (Tcp.Variants.tstep t s (Tcp.Variants.XDial c a)) = [Tcp.Model.ORet (match Tcp.Variants.expect_of t a with Some _ => true | None => false end)]).
+Check (C05_tr_open_result :
+  forall t s c l,
+  snd (Tcp.Variants.tstep t s (Tcp.Variants.XOpen c l)) = [Tcp.Model.ORet true]).
+Check (C05_ws_url_parse :
+  forall a p,
+  Tcp.Variants.ws_url a = Some p -> exists ho port, C10.Model.parse V.C10.Model.TWs a = Some (ho, port, Some p)).
+Check (C05_tcp_accepts_manager_shape :
+  forall a q,
+  Tcp.Variants.manager_tcp_shape a q -> Tcp.Variants.expect_of V.C10.Model.TTcp a = Some (Some q)).
+Check (C05_ws_accepts_manager_shape :
+  forall a q,
+  Tcp.Variants.manager_ws_shape a q -> Tcp.Variants.expect_of V.C10.Model.TWs a = Some (Some q)).
+Check (C05_quic_accepts_manager_shape :
+  forall a q,
+  Tcp.Variants.manager_quic_shape a q -> Tcp.Variants.expect_of V.C10.Model.TQuic a = Some (Some q)).
+Check (C05_tr_accepts_supported :
+  forall cfg a,
+  C10.Model.supported cfg a = true ->
+  exists q, last a (C10.Model.Other 0) = C10.Model.P2p q /\ Tcp.Variants.expect_of (C10.Model.route cfg a) a = Some (Some q)).
+Check (C05_tcp_dial_accepts_manager_addresses :
+  forall listen a q,
+  DialShape.dial_shape listen a = DialShape.SvTcp q -> Tcp.Variants.expect_of V.C10.Model.TTcp a = Some (Some q)).
+Check (C05_ws_dial_accepts_manager_addresses :
+  forall listen a q,
+  DialShape.dial_shape listen a = DialShape.SvWs q -> Tcp.Variants.expect_of V.C10.Model.TWs a = Some (Some q)).
+Check (C05_tr_open_phase_owed :
+  forall t s g k o1 e o2,
+  Tcp.VariantTheorems.treachU t s g -> snd (Tcp.Variants.tstep t s k) = o1 ++ Tcp.Model.OEv e :: o2 ->
+  match e with
+  | Tcp.Model.TOpened c | Tcp.Model.TOpenFailure c =>
+      In c (Tcp.Model.g_open (fold_left Tcp.Model.gout o1 (Tcp.Model.gcall (Tcp.Variants.ev_of t k) (snd (Tcp.Variants.tstep t s k)) g)))
+  | _ => True
+  end).
+Check (C05_tr_call_results :
+  forall t s g k,
+  Tcp.VariantTheorems.treachU t s g -> Tcp.Model.call_ok (Tcp.Variants.ev_of t k) g (snd (Tcp.Variants.tstep t s k)) = true).
+Check (C05_tr_negotiate_after_opened :
+  forall t s g k c,
+  Tcp.VariantTheorems.treachU t s g -> In (Tcp.Model.OEv (Tcp.Model.TOpened c)) (snd (Tcp.Variants.tstep t s k)) ->
+  let s1 := fst (Tcp.Variants.tstep t s k) in
+  snd (Tcp.Variants.tstep t s1 (Tcp.Variants.XEv (Tcp.Model.ENegotiate c))) = [Tcp.Model.ORet true] /\
+  snd (Tcp.Variants.tstep t (fst (Tcp.Variants.tstep t s1 (Tcp.Variants.XEv (Tcp.Model.ECancel c)))) (Tcp.Variants.XEv (Tcp.Model.ENegotiate c))) = [Tcp.Model.ORet true]).
+Check (C05_tr_contract :
+  forall t s g k o1 e o2,
+  Tcp.VariantTheorems.treach t s g -> Tcp.Model.caller_ok g (Tcp.Variants.ev_of t k) = true -> snd (Tcp.Variants.tstep t s k) = o1 ++ Tcp.Model.OEv e :: o2 ->
+  Tcp.Model.tfeas (fold_left Tcp.Model.gout o1 (Tcp.Model.gcall (Tcp.Variants.ev_of t k) (snd (Tcp.Variants.tstep t s k)) g)) e = true).
+Check (C05_tr_established_names_dialled_peer :
+  forall t s g k o1 c q o2,
+  Tcp.VariantTheorems.treach t s g -> Tcp.Model.caller_ok g (Tcp.Variants.ev_of t k) = true ->
+  snd (Tcp.Variants.tstep t s k) = o1 ++ Tcp.Model.OEv (Tcp.Model.TEstablished c q false) :: o2 ->
+  let g' := fold_left Tcp.Model.gout o1 (Tcp.Model.gcall (Tcp.Variants.ev_of t k) (snd (Tcp.Variants.tstep t s k)) g) in
+  In c (Tcp.Model.g_neg g') /\
+  exists es, Tcp.Model.lookup c (Tcp.Model.g_att g') = Some es /\ (exists x, In x es /\ Tcp.Model.matches x q = true) /\
+             forall p, (forall x, In x es -> x = Some p) -> q = p).
+Check (C05_tr_strict_established_is_named_peer :
+  forall t s g k o1 c q o2,
+  Tcp.VariantTheorems.strict t = true ->
+  Tcp.VariantTheorems.treach t s g -> Tcp.Variants.call_plain t k = true -> Tcp.Model.caller_ok g (Tcp.Variants.ev_of t k) = true ->
+  snd (Tcp.Variants.tstep t s k) = o1 ++ Tcp.Model.OEv (Tcp.Model.TEstablished c q false) :: o2 ->
+  exists es, Tcp.Model.lookup c (Tcp.Model.g_att (Tcp.Model.gstep (Tcp.Variants.ev_of t k) (snd (Tcp.Variants.tstep t s k)) g)) = Some es /\ In (Some q) es).
+Check (C05_tr_no_dropped_answer :
+  forall t s g k m,
+  Tcp.VariantTheorems.treach t s g -> Tcp.Model.caller_ok g (Tcp.Variants.ev_of t k) = true -> In (Tcp.Model.OMark m) (snd (Tcp.Variants.tstep t s k)) ->
+  exists c, m = Tcp.Model.MSilentFailure c Tcp.Model.KInb).
+Check (C05_tr_owed_is_pending :
+  forall t s g c,
+  Tcp.VariantTheorems.treach t s g ->
+  (In c (Tcp.Model.g_open g) -> exists f rem, Tcp.Model.lookup f (Tcp.Model.praw s) = Some c /\ Tcp.Model.lookup f (Tcp.Model.attempts s) = Some rem /\
+                                    ~ In f (Tcp.Model.aborted s)) /\
+  (In c (Tcp.Model.g_neg g) -> exists f k, Tcp.Model.lookup f (Tcp.Model.pconn s) = Some (c, k) /\ Tcp.Model.is_inb k = false)).
+Check (C05_tr_progress_open_answer :
+  forall t s g f c rem i e q,
+  Tcp.VariantTheorems.treach t s g -> Tcp.Model.lookup f (Tcp.Model.praw s) = Some c -> In c (Tcp.Model.g_open g) ->
+  Tcp.Model.lookup f (Tcp.Model.attempts s) = Some rem -> Tcp.Model.lookup i rem = Some e -> Tcp.Model.matches e q = true ->
+  In (Tcp.Model.OEv (Tcp.Model.TOpened c)) (snd (Tcp.Variants.tstep t s (Tcp.Variants.XEv (Tcp.Model.EAns f i (Some q)))))).
+Check (C05_tr_progress_open_last_failure :
+  forall t s g f c rem i e ans,
+  Tcp.VariantTheorems.treach t s g -> Tcp.Model.lookup f (Tcp.Model.praw s) = Some c -> In c (Tcp.Model.g_open g) ->
+  Tcp.Model.lookup f (Tcp.Model.attempts s) = Some rem -> Tcp.Model.lookup i rem = Some e -> Tcp.Model.delk i rem = [] ->
+  (forall q, ans = Some q -> Tcp.Model.matches e q = false) ->
+  In (Tcp.Model.OEv (Tcp.Model.TOpenFailure c)) (snd (Tcp.Variants.tstep t s (Tcp.Variants.XEv (Tcp.Model.EAns f i ans))))).
+Check (C05_tr_progress_open_expire :
+  forall t s g f c rem,
+  Tcp.Variants.has_deadline t = true ->
+  Tcp.VariantTheorems.treach t s g -> Tcp.Model.lookup f (Tcp.Model.praw s) = Some c -> In c (Tcp.Model.g_open g) ->
+  Tcp.Model.lookup f (Tcp.Model.attempts s) = Some rem -> rem <> [] ->
+  In (Tcp.Model.OEv (Tcp.Model.TOpenFailure c)) (snd (Tcp.Variants.tstep t s (Tcp.Variants.XEv (Tcp.Model.EExpire f))))).
+Check (C05_tr_progress_open_no_address :
+  forall t s g f c e,
+  Tcp.VariantTheorems.treach t s g -> Tcp.Model.lookup f (Tcp.Model.praw s) = Some c -> In c (Tcp.Model.g_open g) -> Tcp.Model.lookup f (Tcp.Model.attempts s) = Some [] ->
+  Tcp.Model.polls e = true -> In (Tcp.Model.OEv (Tcp.Model.TOpenFailure c)) (snd (Tcp.Variants.tstep t s (Tcp.Variants.XEv e)))).
+Check (C05_tr_progress_dial :
+  forall t s g f c i ans,
+  Tcp.VariantTheorems.treach t s g -> Tcp.Model.lookup f (Tcp.Model.pconn s) = Some (c, Tcp.Model.KDial) ->
+  exists x, Tcp.Model.lookup c (Tcp.Model.g_att g) = Some [x] /\
+    In (Tcp.Model.OEv (match ans with
+             | Some q => if Tcp.Model.matches x q then Tcp.Model.TEstablished c q false else Tcp.Model.TDialFailure c
+             | None => Tcp.Model.TDialFailure c
+             end)) (snd (Tcp.Variants.tstep t s (Tcp.Variants.XEv (Tcp.Model.EAns f i ans))))).
+Check (C05_tr_progress_negotiate :
+  forall t s g f c e,
+  Tcp.VariantTheorems.treach t s g -> Tcp.Model.lookup f (Tcp.Model.pconn s) = Some (c, Tcp.Model.KNeg) -> Tcp.Model.polls e = true ->
+  exists q, In (Tcp.Model.OEv (Tcp.Model.TEstablished c q false)) (snd (Tcp.Variants.tstep t s (Tcp.Variants.XEv e)))).
+Check (C05_tr_progress_inbound :
+  forall t s g f c i q,
+  Tcp.VariantTheorems.treach t s g -> Tcp.Model.lookup f (Tcp.Model.pconn s) = Some (c, Tcp.Model.KInb) ->
+  In (Tcp.Model.OEv (Tcp.Model.TEstablished c q true)) (snd (Tcp.Variants.tstep t s (Tcp.Variants.XEv (Tcp.Model.EAns f i (Some q)))))).
+Check (C05_tr_outbound_ids_from_owner :
+  forall t s g c,
+  Tcp.VariantTheorems.treachU t s g -> In c (Tcp.Model.g_open g) \/ In c (Tcp.Model.g_neg g) \/ In c (Tcp.Model.g_opened g) -> In c (Tcp.Model.g_used g)).
+Check (C05_tr_opened_is_unnegotiated :
+  forall t s g c,
+  Tcp.VariantTheorems.treachU t s g -> (In c (Tcp.Model.opened s) <-> In c (Tcp.Model.g_opened g))).
+Check (C05_tr_opened_leaves_by_negotiate :
+  forall e os g c,
+  In c (Tcp.Model.g_opened g) -> ~ In c (Tcp.Model.g_opened (Tcp.Model.gstep e os g)) -> e = Tcp.Model.ENegotiate c).
+Check (C05_tcp_answers_at_most_once :
+  forall s g h c,
+  Tcp.Once.reachH s g h -> (Tcp.Once.cnt (Tcp.Once.open_ans c) h <= 1)%nat /\ (Tcp.Once.cnt (Tcp.Once.neg_ans c) h <= 1)%nat).
+Check (C05_tcp_owed_not_answered :
+  forall s g h c,
+  Tcp.Once.reachH s g h ->
+  (In c (Tcp.Model.g_open g) -> Tcp.Once.cnt (Tcp.Once.open_ans c) h = 0%nat /\ Tcp.Once.cnt (Tcp.Once.neg_ans c) h = 0%nat /\ ~ In c (Tcp.Model.g_neg g) /\ ~ In c (Tcp.Model.g_opened g)) /\
+  (In c (Tcp.Model.g_neg g) -> Tcp.Once.cnt (Tcp.Once.neg_ans c) h = 0%nat /\ ~ In c (Tcp.Model.g_open g) /\ ~ In c (Tcp.Model.g_opened g))).
+Check (C05_tcp_no_answer_without_call :
+  forall s g h c,
+  Tcp.Once.reachH s g h -> ~ In c (Tcp.Model.g_used g) -> Tcp.Once.cnt (Tcp.Once.open_ans c) h = 0%nat /\ Tcp.Once.cnt (Tcp.Once.neg_ans c) h = 0%nat).
+Check (C05_tr_answers_at_most_once :
+  forall t s g h c,
+  Tcp.Once.treachH t s g h -> (Tcp.Once.cnt (Tcp.Once.open_ans c) h <= 1)%nat /\ (Tcp.Once.cnt (Tcp.Once.neg_ans c) h <= 1)%nat).
+Check (C05_tr_owed_not_answered :
+  forall t s g h c,
+  Tcp.Once.treachH t s g h ->
+  (In c (Tcp.Model.g_open g) -> Tcp.Once.cnt (Tcp.Once.open_ans c) h = 0%nat /\ Tcp.Once.cnt (Tcp.Once.neg_ans c) h = 0%nat /\ ~ In c (Tcp.Model.g_neg g) /\ ~ In c (Tcp.Model.g_opened g)) /\
+  (In c (Tcp.Model.g_neg g) -> Tcp.Once.cnt (Tcp.Once.neg_ans c) h = 0%nat /\ ~ In c (Tcp.Model.g_open g) /\ ~ In c (Tcp.Model.g_opened g))).
+Check (C05_tr_no_answer_without_call :
+  forall t s g h c,
+  Tcp.Once.treachH t s g h -> ~ In c (Tcp.Model.g_used g) -> Tcp.Once.cnt (Tcp.Once.open_ans c) h = 0%nat /\ Tcp.Once.cnt (Tcp.Once.neg_ans c) h = 0%nat).
+Check (C05_tr_refused_dial_no_effect :
+  forall t s g c a,
+  Tcp.Variants.expect_of t a = None ->
+  Tcp.Variants.tstep t s (Tcp.Variants.XDial c a) = (s, [Tcp.Model.ORet false]) /\
+  Tcp.Model.gstep (Tcp.Variants.ev_of t (Tcp.Variants.XDial c a)) (snd (Tcp.Variants.tstep t s (Tcp.Variants.XDial c a))) g = g).
+Check (C05_tr_open_unparsable_fails :
+  forall t s g c l e,
+  Tcp.VariantTheorems.treach t s g -> Tcp.Model.caller_ok g (Tcp.Variants.ev_of t (Tcp.Variants.XOpen c l)) = true -> Tcp.Variants.attempts_of t l = [] -> Tcp.Model.polls e = true ->
+  In (Tcp.Model.OEv (Tcp.Model.TOpenFailure c)) (snd (Tcp.Variants.tstep t (fst (Tcp.Variants.tstep t s (Tcp.Variants.XOpen c l))) (Tcp.Variants.XEv e)))).
+Check (C05_tcp_can_always_settle :
+  forall s g,
+  Tcp.Theorems.reach s g ->
+  exists es, forallb Tcp.Settle.env_ev es = true /\
+             Tcp.Theorems.reach (fst (Tcp.Settle.runG s g es)) (snd (Tcp.Settle.runG s g es)) /\
+             Tcp.Model.g_open (snd (Tcp.Settle.runG s g es)) = [] /\ Tcp.Model.g_neg (snd (Tcp.Settle.runG s g es)) = []).
+Check (C05_tcp_env_removes_only_by_answer :
+  forall s g e c,
+  Tcp.Settle.env_ev e = true ->
+  (In c (Tcp.Model.g_open g) -> ~ In c (Tcp.Model.g_open (Tcp.Model.gstep e (snd (Tcp.Model.step s e)) g)) ->
+   exists o, In o (snd (Tcp.Model.step s e)) /\ Tcp.Settle.answers_open c o) /\
+  (In c (Tcp.Model.g_neg g) -> ~ In c (Tcp.Model.g_neg (Tcp.Model.gstep e (snd (Tcp.Model.step s e)) g)) ->
+   exists o, In o (snd (Tcp.Model.step s e)) /\ Tcp.Settle.answers_neg c o)).
+Check (C05_tr_can_always_settle :
+  forall t s g,
+  Tcp.VariantTheorems.treach t s g ->
+  exists es, forallb Tcp.Settle.env_ev es = true /\
+             Tcp.VariantTheorems.treach t (fst (Tcp.Settle.runG s g es)) (snd (Tcp.Settle.runG s g es)) /\
+             Tcp.Model.g_open (snd (Tcp.Settle.runG s g es)) = [] /\ Tcp.Model.g_neg (snd (Tcp.Settle.runG s g es)) = []).
+Check (C05_sysT_feasible :
+  forall (Tg : tr) (L : limits),
+  (forall t : tr, installed L t = true <-> t = Tg) ->
+  forall xs : list TrCompose.xev,
+  TrCompose.xfeasible Tg L TrCompose.sys0 xs ->
+  feasible L init g0 (TrCompose.sys_trace Tg L TrCompose.sys0 xs) /\
+  (TrCompose.s_m (TrCompose.sys_run Tg L TrCompose.sys0 xs), TrCompose.s_g (TrCompose.sys_run Tg L TrCompose.sys0 xs)) =
+  lrun L init g0 (TrCompose.sys_trace Tg L TrCompose.sys0 xs)).
+Check (C05_sysT_step :
+  forall (Tg : tr) (L : limits),
+  (forall t : tr, installed L t = true <-> t = Tg) ->
+  forall (st : TrCompose.sys) (x : TrCompose.xev),
+  TrCompose.Inv Tg L st ->
+  TrCompose.xok L st x ->
+  feasible L (TrCompose.s_m st) (TrCompose.s_g st) (TrCompose.sys_evs Tg L st x) /\ TrCompose.Inv Tg L (TrCompose.sys_step Tg L st x)).
+Check (C05_sysT_at_most_one_outcome :
+  forall (Tg : tr) (L : limits),
+  (forall t : tr, installed L t = true <-> t = Tg) ->
+  forall xs : list TrCompose.xev,
+  TrCompose.xfeasible Tg L TrCompose.sys0 xs -> NoDup (terminals L init (TrCompose.sys_trace Tg L TrCompose.sys0 xs))).
+Check (C05_sysT_no_silence :
+  forall (Tg : tr) (L : limits),
+  (forall t : tr, installed L t = true <-> t = Tg) ->
+  forall xs : list TrCompose.xev,
+  TrCompose.xfeasible Tg L TrCompose.sys0 xs ->
+  let st := TrCompose.sys_run Tg L TrCompose.sys0 xs in
+  quiescent (TrCompose.s_m st) (TrCompose.s_g st) ->
+  forall (c : N) (p : peer),
+  lookup c (g_att (TrCompose.s_g st)) = Some p ->
+  In c (g_done (TrCompose.s_g st)) \/ In c (g_super (TrCompose.s_g st)) /\ In p (g_rep (TrCompose.s_g st)) \/ In c (g_limrej (TrCompose.s_g st))).
+Check (C05_sysT_no_wedge :
+  forall (Tg : tr) (L : limits),
+  (forall t : tr, installed L t = true <-> t = Tg) ->
+  forall xs : list TrCompose.xev,
+  TrCompose.xfeasible Tg L TrCompose.sys0 xs ->
+  let st := TrCompose.sys_run Tg L TrCompose.sys0 xs in
+  quiescent (TrCompose.s_m st) (TrCompose.s_g st) -> forall p : peer, settled (state_of (TrCompose.s_m st) p)).
+Check (C05_sysT_no_stuck :
+  forall (Tg : tr) (L : limits),
+  (forall t : tr, installed L t = true <-> t = Tg) ->
+  forall (xs : list TrCompose.xev) (x : TrCompose.xev) (s : N),
+  TrCompose.xfeasible Tg L TrCompose.sys0 (xs ++ [x]) ->
+  forall (e : ev) (m : mgr) (g : ghost) (es2 : list ev),
+  TrCompose.sys_evs Tg L (TrCompose.sys_run Tg L TrCompose.sys0 xs) x = e :: es2 ->
+  (m, g) = (TrCompose.s_m (TrCompose.sys_run Tg L TrCompose.sys0 xs), TrCompose.s_g (TrCompose.sys_run Tg L TrCompose.sys0 xs)) ->
+  ~ In (Stuck s) (snd (step L m e))).
+Check (C05_sysT_quiescent :
+  forall (Tg : tr) (L : limits),
+  (forall t : tr, installed L t = true <-> t = Tg) ->
+  forall xs : list TrCompose.xev,
+  TrCompose.xfeasible Tg L TrCompose.sys0 xs ->
+  let st := TrCompose.sys_run Tg L TrCompose.sys0 xs in
+  quiescent (TrCompose.s_m st) (TrCompose.s_g st) <->
+  TrCompose.TM.g_open (TrCompose.s_tg st) = [] /\ TrCompose.TM.g_neg (TrCompose.s_tg st) = [] /\ accepting (TrCompose.s_m st) = []).
+Check (C05_sysT_owed_is_pending :
+  forall (Tg : tr) (L : limits),
+  (forall t : tr, installed L t = true <-> t = Tg) ->
+  forall (xs : list TrCompose.xev) (c : conn),
+  TrCompose.xfeasible Tg L TrCompose.sys0 xs ->
+  let st := TrCompose.sys_run Tg L TrCompose.sys0 xs in
+  owed (TrCompose.s_g st) c ->
+  (exists (f : N) (rem : list (N * TrCompose.TM.expect)),
+     TrCompose.TM.lookup f (TrCompose.TM.praw (TrCompose.s_t st)) = Some c /\
+     TrCompose.TM.lookup f (TrCompose.TM.attempts (TrCompose.s_t st)) = Some rem /\ ~ In f (TrCompose.TM.aborted (TrCompose.s_t st))) \/
+  (exists (f : N) (k : TrCompose.TM.kind),
+     TrCompose.TM.lookup f (TrCompose.TM.pconn (TrCompose.s_t st)) = Some (c, k) /\ TrCompose.TM.is_inb k = false)).
+Check (C05_sysT_progress :
+  forall (Tg : tr) (L : limits),
+  (forall t : tr, installed L t = true <-> t = Tg) ->
+  forall (xs : list TrCompose.xev) (c : conn),
+  TrCompose.xfeasible Tg L TrCompose.sys0 xs ->
+  let st := TrCompose.sys_run Tg L TrCompose.sys0 xs in
+  owed (TrCompose.s_g st) c ->
+  exists n : TrCompose.TM.ev,
+    TrCompose.TM.polls n = true /\
+    TrCompose.xfeasible Tg L TrCompose.sys0 (xs ++ [TrCompose.XNet n]) /\
+    (exists e : ev, In e (TrCompose.sys_evs Tg L st (TrCompose.XNet n)) /\ TrCompose.answers c e)).
+Check (C05_sysT_calls_are_real :
+  forall (Tg : tr) (p : peer) (k : nat) (o : out),
+  Tg = TCP \/ Tg = WS -> TrCompose.fwd Tg p k o = map (TrCompose.TV.ev_of (TrCompose.transport_of Tg)) (TrCompose.fwdX Tg p k o)).
+Check (C05_sysT_transport_side_is_its_model :
+  forall (Tg : tr) (L : limits) (k : nat) (st : TrCompose.sys) (e : ev),
+  Tg = TCP \/ Tg = WS ->
+  (TrCompose.s_t (TrCompose.deliver Tg L k st e), TrCompose.s_tg (TrCompose.deliver Tg L k st e)) =
+  TrCompose.xrun (TrCompose.transport_of Tg) (TrCompose.s_t st) (TrCompose.s_tg st) (TrCompose.real_calls Tg L k st e)).
